@@ -343,8 +343,33 @@ def run(ctx, config):
             if is_e(q, "deref") and is_e(strip(q[1]), "fld") and strip(q[1])[2] == "evbuffer.last_with_datap" and eq(strip(strip(q[1])[1]), owner):
                 return True
         if x.e[0] == "call" and callee_name(x.e) in M.byname and any(eq(strip(a), owner) for a in x.e[2]):
-            return True   # a callee that gets the evbuffer may read first/last_with_datap (overwrites() is asked first)
+            return touches_chains(callee_name(x.e))   # a callee that gets the evbuffer and (itself or through its callees) looks at the chain fields (overwrites() is asked first)
         return False
+    _touch = {}
+
+    def touches_chains(name, depth=0):
+        if name in _touch:
+            return _touch[name]
+        _touch[name] = True          # recursion: assume it does
+        g = M.byname.get(name)
+        res = False
+        if g is None or depth > 6:
+            res = True
+        else:
+            for x2 in g.elems():
+                if any(is_e(q, "fld") and (q[2] in OWN or q[2] == "evbuffer.last_with_datap") for q in walk(x2.e)):
+                    res = True
+                    break
+                if x2.e[0] == "call" and callee_name(x2.e) in M.byname and callee_name(x2.e) != name and touches_chains(callee_name(x2.e), depth + 1):
+                    res = True
+                    break
+            if not res:
+                for b2 in g.branch_blocks():
+                    if any(is_e(q, "fld") and (q[2] in OWN or q[2] == "evbuffer.last_with_datap") for q in walk(b2.term["cond"])):
+                        res = True
+                        break
+        _touch[name] = res
+        return res
     for f in M.fns:
         for el in f.calls():
             if callee_name(el.e) not in RELEASERS or not el.e[2]:
